@@ -10,4 +10,5 @@ REGISTRY = {
     "C25": ("stnhist", "StnHist"),
     "C35": ("envsim", "EnvSim"),
     "C36": ("statehist", "StateHist"),
+    "C38": ("writerhist", "WriterHist"),
 }
